@@ -68,7 +68,7 @@ def check_case(run, case, tier='quick'):
     rng = random.Random(case['hseed'])
     name, path = gstream.materialise(case['spec'], 'c08')
     # session names are free text: dates, versions, host names ... (dots, letters of '.sav')
-    sn = session.new_session_name('c08') + rng.choice(['', '', '.02', '.run.a', '_v', '.s'])
+    sn = session.new_session_name('c08') + rng.choice(['', '', '.02', '.run.a', '_v', '.s', '.sav', '.saved.2'])
     try:
         flags = gstream.flags_of(case)
         lang = oracles.Language(oracles.Disk(path), flags['skip_brute'], flags['skip_case'])
